@@ -26,7 +26,7 @@ FAULT_KINDS = ["connect failure before success (reconnect spacing)", "connect ha
 REAL = ["all six gateway classes through their public constructors", "mysensors.const.get_const / validation.safe_is_version", "transports, tasks, persistence"]
 STUBS = ["serial/socket factories, asyncio connection factories, MQTT broker, disk, clock, thread scheduling"]
 ASSUMPTIONS = ["this is a statement over configurations; simulation only provides the instrument that observes options taking effect (DESIGN.md C18)",
-               "bare integer version 2 is not of the form major.minor[.patch]: its floor is not checked"]
+               "a whole number N (2, '3') is read as the version N.0"]
 REQUIRED_PROBES = ["panel_frames_checked", "reconnect_spacing_checked", "node_version_checked", "persistence_effect_checked", "presentation_request_checked"]
 
 PANEL = [  # (frame after node 1 / child 1 are presented, description)
@@ -48,7 +48,7 @@ def version_strings(rng):
     if roll < 0.15:
         return rng.choice(["1.4", "1.5", "2.0", "2.1", "2.2"])
     if roll < 0.27:
-        return rng.choice(["abc", "", None, 2.0, 2, "2", "1.4.0", "2.2.0", "2.0.5", "2.3", "2.10", "1.10", "10.0", "x.y", "two"])
+        return rng.choice(["abc", "", None, 2.0, 2, "2", 3, "3", 1, "1", 0, 2.2, 1.5, "1.4.0", "2.2.0", "2.0.5", "2.3", "2.10", "1.10", "10.0", "x.y", "two"])
     major, minor = rng.randint(0, 3), rng.randint(0, 12)
     patch = rng.choice([None, None, 0, 1, 2, 3])
     return f"{major}.{minor}" if patch is None else f"{major}.{minor}.{patch}"
@@ -102,6 +102,11 @@ def _vio(cls, detail, **sig):
 
 
 def _floor_of(value):
+    if isinstance(value, bool):
+        return "1.4"
+    if isinstance(value, int) or (isinstance(value, str) and value.isascii() and value.isdigit()):
+        # a whole number N is the version N.0 ("numeric comparison"; the quantifier includes numbers)
+        return tables.version_floor(f"{int(value)}.0")
     if isinstance(value, float):
         return tables.version_floor(str(value))
     if isinstance(value, str):
@@ -218,7 +223,7 @@ def run(case):
                                                                    "published": len(broker.published)}, option="prefix/retain"))
             # ---- version floor of the gateway -----------------------------------------------------
             floor = _floor_of(gw_version)
-            check_floor = not (isinstance(gw_version, int) and not isinstance(gw_version, bool)) and gw_version != "2"
+            check_floor = True
             if check_floor:
                 for frame in PANEL:
                     fields = tables.parse_canonical(frame)
